@@ -400,12 +400,43 @@ func (h *Handler) HandleDeleteFile(ctx *Context, path string) error {
 		return ErrWriteForbidden
 	}
 
-	if err := h.Fs.Remove(path); err != nil {
+	if err := h.remove(path, false); err != nil {
 		log.WarnContext(ctx, "Remove file failed", logutil.ErrorAttr(err))
 		return err
 	}
 
 	return nil
+}
+
+// remove removes a directory (dir is set) or anything but a directory (dir is not set):
+// Remove of underlying filesystem takes both for both requests.
+func (h *Handler) remove(path string, dir bool) error {
+	fsys := h.Fs
+	if u, ok := fsys.(interface{ Unwrap() afero.Fs }); ok {
+		fsys = u.Unwrap()
+	}
+
+	var (
+		stat fs.FileInfo
+		err  error
+	)
+	if lstater, ok := fsys.(afero.Lstater); ok {
+		stat, _, err = lstater.LstatIfPossible(path) // link to a directory is not a directory
+	} else {
+		stat, err = fsys.Stat(path)
+	}
+	if err != nil {
+		return err
+	}
+
+	switch {
+	case dir && !stat.IsDir():
+		return &fs.PathError{Op: "rmdir", Path: path, Err: syscall.ENOTDIR}
+	case !dir && stat.IsDir():
+		return &fs.PathError{Op: "unlink", Path: path, Err: syscall.EISDIR}
+	}
+
+	return h.Fs.Remove(path)
 }
 
 func (h *Handler) HandleMkdir(ctx *Context, path string) error {
@@ -434,7 +465,7 @@ func (h *Handler) HandleRmdir(ctx *Context, path string) error {
 		return ErrWriteForbidden
 	}
 
-	if err := h.Fs.Remove(path); err != nil {
+	if err := h.remove(path, true); err != nil {
 		log.WarnContext(ctx, "Remove directory failed", logutil.ErrorAttr(err))
 		return err
 	}
